@@ -290,6 +290,11 @@ Proof. split; reflexivity. Qed.
 Lemma derived_rule_is_jax_rule {F R : Type} (D : F -> R) (impl orig : F) : impl = orig -> D impl = D orig.
 Proof. intros ->. reflexivity. Qed.
 
+(* ... and the helper that installs the derived JVP rules IS `jax.jvp` of the wrapped original implementation with all primals and
+   all (instantiated) tangents: AST of register_jvp_via_jax_jvp, gen/GenAutodiff.v fails closed on anything else *)
+Theorem derived_jvp_helper_is_jax_jvp : derived_jvp_helper_shape_checked = true.
+Proof. reflexivity. Qed.
+
 (* HAND-WRITTEN JVP / transpose rules (inventory: gen/GenAutodiff.v) need their own test: each of these plugins has a boundary
    program family in harness/c10.py (_rule_families); a new hand-written rule without one breaks this proof *)
 Open Scope string_scope.
